@@ -234,7 +234,8 @@ def ev(case, rec):
 # --- covariance -----------------------------------------------------------------------------------------
 def gen_cov(tier, seed):
     mats = psd_lattice(tier)
-    cols = [[[1e-4], [2e-4], [3e-4]], [[0.0], [0.0], [0.0]], [[1.0], [1e-8], [1e-4]]]
+    cols = [[[1e-4], [2e-4], [3e-4]], [[0.0], [0.0], [0.0]], [[1.0], [1e-8], [1e-4]], [[1.0], [1.0], [4.0]], [[4.0], [0.0], [9.0]]]
+    mats = mats + [[[4.0, 1.0, 0.0], [1.0, 3.0, -1.0], [0.0, -1.0, 9.0]], [[2.0, 2.0, 0.0], [2.0, 2.0, 0.0], [0.0, 0.0, 1.0]]]      # whole numbers: also as integer arrays
     pts = [(53, 386352.3979, 7381850.7689, 603.3466), (55, 2e5, 5.8e6, None), (50, 9e5, 9.4e6, 0.0), (59, 5e5, 3.4e6, 3000.0)]
     for p in pts:
         yield {'pt': list(p), 'mats': mats + cols}
@@ -260,7 +261,7 @@ def ev_cov(case, rec):
                 rec.outcome('raise')
                 continue
             rec.nontriv((tuple(case['pt']), repr(m), direction))
-            if (len(repr(m)) + int(e)) % 3 == 0:
+            if (len(repr(m)) + int(e)) % 3 == 0 or all(float(v).is_integer() for row in m for v in row):
                 cfg.forms_agree(rec, lambda vf: fn(z, e, n, False if h is None else h, vf), m, r, 'transform:mga:vcv', one, co,
                                 'the MGA transformation')
             out = r[4]
